@@ -157,4 +157,23 @@ theorem parseDids_some (l : List String) : parseDids (l.map some) = some l := by
   | cons x xs ih => simp [parseDids, ih]
 
 
+
+/-! ### authenticator -/
+
+theorem authn_sound_iff (e : AuthEnv) (claimed : String) (peer : Peer) (i : AuthIn) :
+    (authenticate e claimed peer i).2 = "ok" ↔
+      ∃ dns ep host, i.cert = some dns ∧ i.endpoint = some ep ∧ e.parseHost ep = some host ∧ e.verifyHostname dns host = true := by
+  unfold authenticate
+  cases hc : i.cert with
+  | none => simp
+  | some dns =>
+    cases he : i.endpoint with
+    | none => simp
+    | some ep =>
+      cases hp : e.parseHost ep with
+      | none => simp [hp]
+      | some host =>
+        cases hv : e.verifyHostname dns host <;> simp [hp, hv]
+
+
 end Nuts.C15.L
